@@ -15,7 +15,9 @@
  * Sockets are real (unconnected) descriptors, so a leaked fd is a real leak.
  *
  * one case per line:
- *   gw <balance 0..3> <wkr 0|1> <nslots> <hosts> <op> <op> ...
+ *   gw <balance 0..3> <flags> <nslots> <hosts> <op> <op> ...
+ *   flags bit 0 = worker process of server.max-worker > 0; bit 1 = hosts written as an
+ *           anonymous list (( ... ),( ... )): no labels, so every statistics key is the same
  *   hosts = host specs joined by '/':  nprocs.disable.ctmo.rtmo.wtmo.kind
  *           kind r = remote tcp, u = remote unix socket, l = local (bin-path,
  *           procs is_local with a pid; the children never exit here)
@@ -93,8 +95,12 @@ static int ltv_socket_nb(int domain, int type, int protocol) {
     return fd;
 }
 
+static int cur_slot = -1;      /* request being run (run_con) */
+static int ndial[16];          /* connect() calls made for the request in each slot */
+
 static int ltv_connect(int fd, const struct sockaddr *sa, socklen_t len) {
     UNUSED(fd); UNUSED(len);
+    if (cur_slot >= 0 && cur_slot < 16) ++ndial[cur_slot];
     /* which backend is being dialled? (identify by the proc's own sockaddr) */
     int hi = -1, pi = -1;
     if (cur_exts && cur_exts->used) {
@@ -227,6 +233,8 @@ static void script_set(char *s) {
     }
 }
 
+static int anon_hosts; /* hosts written as an anonymous list (( ... ),( ... )): no labels */
+
 static array *mk_config(int nh, char **spec) {
     /* xxx.server = ( "/" => ( "h0" => ( "host" => ..., ... ), "h1" => ... ) ) */
     array *a = array_init(2);
@@ -238,7 +246,8 @@ static array *mk_config(int nh, char **spec) {
         data_array *dh = array_data_array_init();
         char b[64]; int n;
         n = snprintf(b, sizeof(b), "h%d", i);
-        buffer_copy_string_len(&dh->key, b, (size_t)n);
+        if (!anon_hosts) buffer_copy_string_len(&dh->key, b, (size_t)n);
+        /* else: key left unset, as configparser does for list elements without "label" => */
         array *v = &dh->value;
         if (kind == 'u') {
             n = snprintf(b, sizeof(b), "/nonexistent/ltv-gw-%d.sock", i);
@@ -295,14 +304,17 @@ static void dump(void) {
     char key[64];
     for (uint32_t h = 0; h < ex->used; ++h) {
         gw_host *host = ex->hosts[h];
-        int n = snprintf(key, sizeof(key), "gw.backend.h%u.load", h);
+        /* the figures mod_status prints: looked up by name, the name built from the config label */
+        int n = snprintf(key, sizeof(key), "gw.backend.%.*s.load", (int)buffer_clen(host->id),
+                         host->id->ptr ? host->id->ptr : "");
         res_add("H%d,%d,%u,Q", (int)host->load, *array_get_int_ptr(&plugin_stats, key, (uint32_t)n),
                 host->active_procs);
         if (!host->hctxs) res_add("-");
         for (gw_handler_ctx *c = host->hctxs; c; c = c->next)
             res_add("%d%s", (int)(c->r - rq), c->next ? "-" : "");
         for (gw_proc *pr = host->first; pr; pr = pr->next) {
-            n = snprintf(key, sizeof(key), "gw.backend.h%u.%u.load", h, pr->id);
+            n = snprintf(key, sizeof(key), "gw.backend.%.*s.%u.load", (int)buffer_clen(host->id),
+                         host->id->ptr ? host->id->ptr : "", pr->id);
             res_add(",P%c%u,%d,%lld", pstc[pr->state], pr->load,
                     *array_get_int_ptr(&plugin_stats, key, (uint32_t)n),
                     (long long)pr->disabled_until);
@@ -319,11 +331,11 @@ static void dump(void) {
             for (gw_proc *pr = c->host->first; pr; pr = pr->next, ++k) if (pr == c->proc) pi = k;
         }
         int evn = c->fdn ? c->fdn->events : 0;
-        res_add("S%d.%d.%d.%d.%d.%d.%d.%lld.%lld.%lld.%lld;", hi, pi, (int)c->state, c->reconnects,
+        res_add("S%d.%d.%d.%d.%d.%d.%d.%lld.%lld.%lld.%lld.%d;", hi, pi, (int)c->state, c->reconnects,
                 c->fd >= 0, (evn & FDEVENT_IN ? 1 : 0) | (evn & FDEVENT_OUT ? 2 : 0)
                           | (evn & FDEVENT_RDHUP ? 8 : 0),
                 (int)rq[s].resp_body_started, (long long)chunkqueue_length(&c->wb),
-                (long long)c->wb.bytes_out, (long long)c->read_ts, (long long)c->write_ts);
+                (long long)c->wb.bytes_out, (long long)c->read_ts, (long long)c->write_ts, ndial[s]);
     }
     res_add("G%d,F%d,L%d,N%d,T%lld",
             *array_get_int_ptr(&plugin_stats, CONST_STR_LEN("gw.active-requests")),
@@ -346,6 +358,7 @@ static void slot_init(int s, int key) {
     r->conf.errh = srv.errh;
     r->plugin_ctx = pctx[s];
     pctx[s][0] = NULL;
+    ndial[s] = 0;
     r->state = CON_STATE_HANDLE_REQUEST;
     r->http_version = HTTP_VERSION_1_0;
     r->http_method = HTTP_METHOD_GET;
@@ -386,6 +399,7 @@ static void finish(int s, int aborted) {
 static void run_con(int s) {
     request_st * const r = &rq[s];
     if (!active[s]) return;
+    cur_slot = s;
     for (;;) {
         if (NULL == r->handler_module) { finish(s, 0); return; }
         handler_t rc = gw_handle_subrequest(r, &pd);
@@ -451,7 +465,8 @@ int main(void) {
     while (ltv_next()) {
         if (ltv_ntok < 5 || 0 != strcmp(ltv_tok[0], "gw")) { puts("bad-op"); continue; }
         int balance = atoi(ltv_tok[1]);
-        int wkr = atoi(ltv_tok[2]);
+        int wkr = atoi(ltv_tok[2]) & 1;       /* bit 0: worker of server.max-worker > 0 */
+        anon_hosts = (atoi(ltv_tok[2]) >> 1) & 1; /* bit 1: unlabeled hosts */
         nslots = atoi(ltv_tok[3]);
         if (nslots < 1 || nslots > MAXSLOT || balance < 0 || balance > 3) { puts("bad-op"); continue; }
         char *hs[16]; int nh = 0;
